@@ -292,6 +292,10 @@ def _bounds_generators(self: fst.FST, start: int = 0) -> tuple[int, int, int, in
     elif not is_special:  # ListComp, SetComp, GeneratorExp
         _, _, bound_ln, bound_col = ast.elt.f.pars()
 
+        if (bound_ln, bound_col) > (bound_end_ln, bound_end_col):  # GeneratorExp without generators (norm_self=False), its own enclosing parentheses were taken for grouping parentheses of the elt
+            bound_ln = bound_end_ln
+            bound_col = bound_end_col
+
     return bound_ln, bound_col, bound_end_ln, bound_end_col
 
 
